@@ -180,6 +180,18 @@ def run(ctx):
     ctx.oblig(ok, {"dispatcher": "read_from dominates the command match"}, "dominance")
     if not ok:
         ctx.violation("dispatch-without-read", sp_file_line(disp.term(sw_bb).get("sp")), "a command can be dispatched without having been read")
+    # ... and it cannot hand control back ("no action yet, ask me again") without having read one: a `None` return in front of the read
+    # makes the waiting loop call it again with nothing changed, for ever
+    ctx.instance(1)
+    none_rets = {b for b, i, s_ in disp.assigns() if s_["p"]["l"] == 0 and not s_["p"].get("pr") and s_["r"]["k"] == "agg"
+                 and str(s_["r"].get("adt", "")).endswith("option::Option") and s_["r"].get("variant") == "None"}
+    none_rets |= {b for b, t, c in disp.calls() if kit.is_from_residual(c) and t["dest"]["l"] == 0}
+    early = sorted(disp.reachable(0, avoid={reads[0]}) & none_rets)
+    ctx.oblig(not early, {"dispatcher": "every `None` (no action yet) lies behind the command read", "None returns": len(none_rets)}, "must-pass-through")
+    if early:
+        ctx.violation("idle-return-before-read", sp_file_line(disp.term(early[0]).get("sp")) if disp.term(early[0]).get("sp") else disp.file_line(),
+                      "the dispatcher can return `None` (no action yet) before it has read a command (lines %s): the waiting loop calls it again in the same "
+                      "state, so the session neither executes an instruction nor consumes input" % disp.path_lines(disp.path(0, set(early), avoid={reads[0]}) or []))
     # the reader's retry loop consumes a line per iteration
     rf = ctx.fn("lace::debugger::command::Command::<'a>::read_from")
     work = {b for b, t, c in rf.calls() if c and c.endswith("::read") and "reader" in c}
